@@ -214,6 +214,7 @@ def run(repo):
             continue
         label = kind.name + '/' + letter
         handled = []
+        unknown = []
         for c in repo.mro(top):
             dm = c.methods.get('do_math')
             if dm is None:
@@ -225,12 +226,22 @@ def run(repo):
             ctx = Ctx(repo, dm.module, var, kind, letter)
             leaf = dispatch(block, ctx, top_level_skip=True)
             if leaf is None:
+                # nothing in this layer's block is reached for this atom -- unless the block routes through a
+                # construct the dispatcher does not decide (a loop over (class, list) pairs, a lookup table)
+                if any(isinstance(x, (ast.For, ast.While, ast.Dict)) for st_ in block for x in ast.walk(st_)):
+                    unknown.append('%s: the objective block routes through a loop / table' % dm.fq)
                 continue
-            for lst in leaf.appends(ctx.vars):
+            apps = leaf.appends(ctx.vars)
+            if not apps:
+                unknown.append('%s: the statements reached for this atom append it to no list the rule recognises (%s)'
+                               % (dm.fq, '; '.join(ntext(s_)[:40] for s_ in leaf.stmts[:2])))
+            for lst in apps:
                 ok, why = lowered(repo, c, lst, kind, letter, only_func=dm)
                 if ok:
                     handled.append('%s via %s' % (dm.fq, lst))
         ok = bool(handled)
+        if not ok and unknown:
+            raise AnalysisError('R05: objective of atom %s: %s' % (label, unknown[0]))
         res.inst({'objective': label, 'handled_by': handled, 'ok': ok}, ok)
         if not ok:
             res.fail(Finding(RULE, 'gcp.Model.do_math', 'objective:' + label,
